@@ -19,6 +19,27 @@ ORACLE = {
  'C26': 'per delivered PING exactly one PingReceived and one PING ACK with identical payload in order; PING ACK never answered; ping() emits exactly one PING and accepts only 8-byte bytes',
  'C29': 'every raising public call raises an h2 exception (or the documented ValueError/TypeError), emits no bytes, and uses NoSuchStreamError / StreamClosedError for never-used / collected streams',
 }
+ORACLE.update({
+ 'C01': 'end-to-end history matcher: every frame delivered to the receiver is linked (by stream offset) to the successful call that produced it; the receiver events must equal, in order and bijectively, what that call specifies (normalised headers, body bytes, END_STREAM, trailers, 1xx, resets and codes, pushes, pings, priority, settings, alt-svc, window updates), no receiver exception; plus a fault-free epilogue exchange that must complete (bounded liveness)',
+ 'C06': 'RFC 7540 5.1 reference table (h2sim/rules.py) evaluated on the wire-tracked pre-state: each call must succeed/fail and each delivered frame must be accepted / ignored / answered with a stream error / a connection error with the mandated code, explicit either-cells for unspecified cases, sound closed-stream memory rule; measured coverage of (role x state x input) cells',
+ 'C08': 'per-stream automaton over the frames actually emitted (request or 1xx*/final, DATA, trailers+END_STREAM), role restrictions, refusal exception type',
+ 'C09': 'ids of every opened/promised stream strictly increasing with the right parity and <= 2^31-1; get_next_available_stream_id against the wire-derived watermark; reference verdicts for peer frames on idle/skipped/closed ids; PRIORITY leaves the bookkeeping untouched',
+ 'C10': 'open/half-closed stream counts from the wire tracker vs open_*_streams; opening sends vs the peer limit as received; peer HEADERS vs the acknowledged local limit',
+ 'C11': 'FIFO queue of sent SETTINGS frames matched one-to-one with delivered ACKs: SettingsAcknowledged.changed_settings must equal that frame only; RemoteSettingsChanged old/new; exactly one ACK per received frame',
+ 'C12': 'independent verdict table per (identifier, value) incl. the history-dependent window-overflow clause, for delivered frames, update_settings and initial values',
+ 'C13': 'reference HPACK decoder on every emitted block: must decode to the normalised list of the successful call, also right after failing header calls; the real peer must deliver the same list; encoder table never above the peer limit',
+ 'C14': 'independent 8.1.2 conformance predicate + never-indexed representation check on tap-decoded blocks, per outbound validate/normalise combination',
+ 'C15': 'delivered <=> conformant (independent predicate) for blocks in positions the stream state permits; refusal code; delivered list = decoded block with cookie join / header_encoding',
+ 'C16': 'running body totals per received message vs declared content-length at every END_STREAM placement; no-content responses judged on payload only',
+ 'C20': 'frames delivered on streams the receiver had reset (or whose push it refused) must cause no connection error and no events; compression stays in sync; DATA is credited back',
+ 'C21': 're-chunk twin (at once vs byte-at-a-time / random partition) and read-amount twin on fresh connections: emitted bytes, events, call outcomes, errors must agree',
+ 'C22': 'push_stream succeeds iff server & peer allows push (as received) & client-initiated open/half-closed(remote) parent & valid request list & fresh even promised id; client side: disabled push => connection error, valid promise => PushedStreamReceived with right ids and headers, recursion refused',
+ 'C23': 'received PRIORITY => exactly one PriorityUpdated (self-dependency: PROTOCOL_ERROR), no output, flow-control state of all streams unchanged; round trip of prioritize() arguments; local argument validation',
+ 'C24': 'advertise_alternative_service permission table; delivered ALTSVC frames yield exactly the event RFC 7838 prescribes (origin given or own :authority, only before response headers) or are silently ignored',
+ 'C25': 'server view of client settings (public remote_settings mapping) equals client local settings over the settings space; stream 1 half-closed both ways; ids 3 / 2 next; continuation judged by the C01 matcher',
+ 'C27': 'retained-table sizes after every step: stream table == live streams after clean-up, closed-stream memory <= cap, CONTINUATION backlog <= cap, input buffer <= one frame; CONTINUATION floods and oversize header lists refused (ENHANCE_YOUR_CALM at the acknowledged limit)',
+ 'C28': 'process twin: every trace re-executed in fresh interpreters under other PYTHONHASHSEED values, digest of all outputs/events/exceptions identical; tripwires on clocks, random and os.urandom',
+})
 TECH = {
  'C02': 'deterministic simulation, independent wire tap, call-to-frames specification oracle',
  'C03': 'deterministic simulation with crossing WINDOW_UPDATE/SETTINGS, wire-derived send-window oracle',
@@ -31,6 +52,27 @@ TECH = {
  'C26': 'deterministic simulation with ping bursts, duplication faults, exactly-once oracle',
  'C29': 'deterministic simulation with 40% misuse calls incl. collected streams, exception/no-output oracle',
 }
+TECH.update({
+ 'C01': 'deterministic simulation (crossing directions, mid-frame chunks, failing calls), end-to-end history matcher + bounded-liveness epilogue',
+ 'C06': 'deterministic simulation with adversary peer, refinement against an RFC 7540 5.1 reference table',
+ 'C08': 'deterministic simulation with ordering misuse, emitted-frame grammar automaton',
+ 'C09': 'deterministic simulation with user-chosen and adversary ids, watermark oracle',
+ 'C10': 'deterministic simulation with limit changes crossing openings, wire-derived stream counts',
+ 'C11': 'deterministic simulation with several SETTINGS outstanding and delayed/bursty ACKs, FIFO ACK-matching oracle',
+ 'C12': 'deterministic simulation with field faults on live SETTINGS frames, independent verdict table',
+ 'C13': 'deterministic simulation with failing header calls, reference HPACK decoder on the wire',
+ 'C14': 'deterministic simulation over the outbound config matrix, conformance predicate on tap-decoded blocks',
+ 'C15': 'deterministic simulation with sloppy senders and adversary blocks, conformance <=> delivery oracle',
+ 'C16': 'deterministic simulation with lying applications and adversary, content-length accounting oracle',
+ 'C20': 'deterministic simulation with stalled RST_STREAM crossing in-flight frames, non-event oracle',
+ 'C21': 'differential re-execution (re-chunk and read-amount twins) of simulated traces',
+ 'C22': 'deterministic simulation with ENABLE_PUSH changes in flight, iff oracle on push conditions',
+ 'C23': 'deterministic simulation with PRIORITY on every id class, state-unchanged oracle',
+ 'C24': 'deterministic simulation, RFC 7838 permission/event table',
+ 'C25': 'deterministic simulation started via the h2c upgrade path, settings-view and stream-1 oracle',
+ 'C27': 'long adversarial churn simulation with retained-state measurements',
+ 'C28': 'differential re-execution of simulated traces in fresh interpreters (hash seeds) with tripwires',
+})
 TEXT = {}
 for pid, spec in props.SPECS.items():
     profs = ', '.join(p for p, _ in spec.quick)
